@@ -636,6 +636,49 @@ func c14BlockExits(c *Ctx, r *Report) {
 					r.OK("R14.4", key, c.Rel(call.Pos()), "function/subroutine call boundary consumes the payload")
 					continue
 				}
+				// a deeper level of the same loop nest (the function calls itself): a BREAK coming up
+				// is handed on to the level above, it is not this level's own break
+				if call.Call.StaticCallee() == fn && cmp[consts["BLOCK_EXIT_BREAK"]] {
+					handedUp := true
+					var chk func(v ssa.Value, d int)
+					chk = func(v ssa.Value, d int) {
+						if d > 3 || v.Referrers() == nil {
+							return
+						}
+						for _, ref := range *v.Referrers() {
+							switch x := ref.(type) {
+							case *ssa.FieldAddr:
+								chk(x, d+1)
+							case *ssa.UnOp:
+								chk(x, d+1)
+							case *ssa.BinOp:
+								k, ok := constInt(x.Y)
+								if !ok || k != consts["BLOCK_EXIT_BREAK"] || x.Op != token.EQL || x.Referrers() == nil {
+									continue
+								}
+								for _, r2 := range *x.Referrers() {
+									iff, ok := r2.(*ssa.If)
+									if !ok {
+										continue
+									}
+									tb := iff.Block().Succs[0]
+									for i := 0; i < 4 && len(tb.Instrs) == 1; i++ {
+										if _, isJ := tb.Instrs[0].(*ssa.Jump); isJ {
+											tb = tb.Succs[0]
+										}
+									}
+									ret, isRet := tb.Instrs[len(tb.Instrs)-1].(*ssa.Return)
+									if !isRet || len(ret.Results) < 1 || !FlowsFrom(ret.Results[0], payload, 0) {
+										handedUp = false
+									}
+								}
+							}
+						}
+					}
+					chk(payload, 0)
+					r.Check(handedUp, "R14.4", key+" break from a deeper level", c.Rel(call.Pos()), "returned to the level above",
+						fmt.Sprintf("%s receives BREAK from a deeper level of the same loop nest (its own recursive call) and does not return it: the break ends only the inner level and the loop goes on with the next outer key", SSAName(fn)))
+				}
 				r.Check(okRet && okBreak, "R14.4", key, c.Rel(call.Pos()), fmt.Sprintf("payload propagated (returned=%v, statuses compared=%v, in loop=%v)", returned, len(cmp), loop),
 					fmt.Sprintf("the payload of the nested block is not fully propagated (returned on some path=%v, RETURN_VOID compared=%v, RETURN_VALUE compared=%v, in a loop=%v, BREAK compared=%v): 'return'/'break' inside this construct is lost", returned, cmp[consts["BLOCK_EXIT_RETURN_VOID"]], cmp[consts["BLOCK_EXIT_RETURN_VALUE"]], loop, cmp[consts["BLOCK_EXIT_BREAK"]]))
 			}
